@@ -208,9 +208,14 @@ def run(chk, replay=None):
         thr = []
         for a in st_attrs:
             tri = rng.choice(TRIPLES[a])
-            thr.append(tri[1])
-        use_dt = [rng.random() < 0.5 for _ in range(m)]
+            v = tri[1]
+            if a == 'origin_time' and rng.random() < 0.4:
+                v = v + rng.choice([0.5, -0.5, 0.25])        # thresholds need not be whole milliseconds
+            thr.append(v)
+        use_dt = [rng.random() < 0.5 and float(thr[j]).is_integer() for j in range(m)]
         pool = {a: sorted({v for tri in TRIPLES[a] for v in tri} | {thr[j] for j in range(m) if st_attrs[j] == a}) for a in ATTRS}
+        # origin times are whole milliseconds: around a fractional threshold use its two integer neighbours
+        pool['origin_time'] = sorted({int(v // 1) for v in pool['origin_time']} | {int(v // 1) + 1 for v in pool['origin_time'] if not float(v).is_integer()})
         from csep.core.regions import CartesianGrid2D
         region = CartesianGrid2D.from_origins(numpy.array([[-118.0, -34.0], [-116.0, -34.0]]), dh=2.0)
         rows, events = [], []
